@@ -1350,8 +1350,9 @@ class Range(NumericTuple):
         vmin, vmax = bounds
         incmin, incmax = inclusive_bounds
         for bound, v in zip(['lower', 'upper'], val):
-            too_low = (vmin is not None) and (v < vmin if incmin else v <= vmin)
-            too_high = (vmax is not None) and (v > vmax if incmax else v >= vmax)
+            # written so that NaN, which compares False with everything, is out of bounds
+            too_low = (vmin is not None) and not (v >= vmin if incmin else v > vmin)
+            too_high = (vmax is not None) and not (v <= vmax if incmax else v < vmax)
             if too_low or too_high:
                 raise ValueError(
                     f"{_validate_error_prefix(self)} {bound} bound must be in "
